@@ -2457,10 +2457,11 @@ impl Compiler {
                 } else {
                     self.builder.emit(Op::LoadUndefined { dst: value_reg });
                 }
-                self.builder.emit(Op::SetProperty {
+                self.builder.emit(Op::DefineProperty {
                     obj: this_reg,
                     key: key_reg,
                     value: value_reg,
+                    flags: 7,
                 });
                 self.builder.free_register(value_reg);
                 self.builder.free_register(this_reg);
@@ -2508,12 +2509,20 @@ impl Compiler {
             self.builder.free_register(class_reg);
         }
 
-        // Set property on this
-        self.builder.emit(Op::SetPropertyConst {
-            obj: this_reg,
-            key: name_idx,
-            value: value_reg,
+        // Define the field on this (a field is defined, not assigned: an accessor of the same
+        // name further up the prototype chain is shadowed, not called)
+        let key_reg = self.builder.alloc_register()?;
+        self.builder.emit(Op::LoadConst {
+            dst: key_reg,
+            idx: name_idx,
         });
+        self.builder.emit(Op::DefineProperty {
+            obj: this_reg,
+            key: key_reg,
+            value: value_reg,
+            flags: 7,
+        });
+        self.builder.free_register(key_reg);
 
         self.builder.free_register(value_reg);
         self.builder.free_register(this_reg);
